@@ -128,9 +128,24 @@ def wire_form(prog: Program, cls, exact: bool = False) -> set[str]:
             return alternatives(tm[2], conds + ((tm[1], True),)) + alternatives(tm[3], conds + ((tm[1], False),))
         return [(tm, conds)]
 
+    def through(r0, depth=0):
+        """A private module-level helper with one unconditional return (memoised or not — the evaluator never inlines a
+        memoised one) writes what its return expression writes."""
+        if depth < 3 and r0[0] == "call" and r0[1][0] == "ref" and not r0[3] and not any(a[0] == "star" for a in r0[2]):
+            g = prog.functions.get(r0[1][1])
+            if g is not None and g.cls is None and g.name.startswith("_") and g.module == f.module:
+                try:
+                    ps = P.paths_of(prog, g)
+                except Exception:
+                    return r0
+                params = [x for x in g.params]
+                if len(ps) == 1 and ps[0].exit[0] == "return" and not list(ps[0].guards()) and len(r0[2]) <= len(params):
+                    return through(P.substitute(ps[0].exit[1], dict(zip(params, r0[2]))), depth + 1)
+        return r0
+
     rets = []
     for p, r0 in P.returns(P.paths_of(prog, f)):
-        rets += [(p, a, extra) for a, extra in alternatives(r0)]
+        rets += [(p, a, extra) for a, extra in alternatives(through(r0))]
     for p, r, extra in rets:
         val = ("param", "val")
         CAST = ("call", C.sattr("origin"), (val,), ())
